@@ -73,6 +73,16 @@ CHECKS = {
         note='Partial: true concurrency inside git is not modelled (the third-party action is serialised before the push); '
              'delete-branch job and Branch.remove guard are checked in C20.',
         design='3/C08', technique=TECH_GIT),
+    'C09': dict(
+        text='The real BranchCascade.add_branch/update_versions/_update_major_versions/finalize/_set_target_versions run on '
+             'branch objects built by the real constructors whose version numbers are tagged symbolic integers (unbounded); tags '
+             'are strings rendered from symbolic numbers and parsed back by the real regex. z3 decides, per path, target set, '
+             'order, ignored set, fix versions and rejection class against the statement for all numbers (orderings and '
+             'coincidences between lines included). Structure (2-4 branches, 0-3 tags, insertion orders, destination) is '
+             'enumerated. Plus CrossHair ordering lemmas (unbounded) and the tag language by rx2z3.',
+        note='TInt payload handling is validated by replaying a witness of sampled paths through the unshadowed code on real '
+             'branch names against an independent plain-Python oracle. validate() version-mismatch rules are outside.',
+        design='3/C09', technique=TECH + '; CrossHair contracts; regex inclusion in z3'),
     'C11': dict(
         text='Every path of the real jira_checks (check_issue_reference, get_jira_issue, check_project, check_issue_type, '
              'check_fix_versions, bypass_jira_check) on symbolic flags/memberships and an arbitrary subset of a 6-version '
@@ -96,6 +106,16 @@ CHECKS = {
              'an accepted event stays owed unless an equal job is pending or its evaluation started after acceptance.',
         note='Partial: interleavings are at the granularity of put_job\'s shared accesses, not bytecode; Flask threading is outside.',
         design='3/C13', technique=TECH),
+    'C16': dict(
+        text='Real simplecmd.cmd/_do_cmd with a Popen stub under symbolic mode (success, exit code, timeout, OSError), return code, '
+             'str/bytes and log level; real lib.git Repository/Branch methods inside the real process_task with the k-th git '
+             'command failing (symbolic k, mode); real github Client flows through a scripted session with symbolic status codes. '
+             'Sinks: returned output, exception text and rendered traceback chain, every log record, stdout, job.status/details/'
+             'as_json. CrossHair lemma on the masking primitive; structural check that mask and clone-URL password use the same '
+             'function.',
+        note='Fault placement is solver-chosen but finite (fault enumeration in nature); secrets are concrete sentinels '
+             '(URL-special, shell-special, non-ASCII). Comment bodies over histories and the requests library are outside.',
+        design='3/C16', technique=TECH + '; CrossHair contract on the masking primitive'),
     'C17': dict(
         text='(a) real AggregatedWorkflowRuns.state on 0-3 (thorough 4) symbolic workflow runs: SUCCESSFUL only if some branch is '
              'all-green after dropping workflow_dispatch runs and keeping a best run per workflow. (b) green-verdict cache as an '
